@@ -39,10 +39,9 @@ def flatten_checkpoints(ops, outs):
             writes.append(op)
             HX.apply_model(m, op)
         elif op[0] == "batch" and op[2] is None:
-            for o in op[1]:
-                if o[0] in ("set", "del"):
-                    writes.append(o)
-                    HX.apply_model(m, o)
+            for o in HX.flatten_writes(op[1]):
+                writes.append(o)
+                HX.apply_model(m, o)
         elif op[0] == "state":
             cps.append((list(writes), dict(m), out[0]))
     return cps
